@@ -25,6 +25,10 @@ RULE = (
     "__slots__, own __new__, no __init__, dataclass, NamedTuple, generic, first parameter not named self, and subclasses "
     "adding constructors / methods: decorated class is the original object; class and subclasses behave as their undecorated "
     "twins (same results, same exceptions) for construction, method calls, attribute access, pickling-free copy of state. "
+    "(C) contract-inheriting hierarchies (overrides of every member kind incl. properties with explicit doc, members inherited "
+    "without overriding, abstract bases, class keywords/__init_subclass__, diamonds with mixins, slots+Generic+dataclass) loaded "
+    "twice from the same source - decorators defined as the library's or as identity, base DBC or abc.ABC: member metadata and "
+    "operation logs must be equal. "
     "Non-trivial = every compared call / class program; distinct = (kind, signature, stack, shape) or class-program tag."
 )
 ASSUMPTIONS = ["all contracts in this workload hold; construction paths that bypass the constructor are a silent zone"]
@@ -536,6 +540,57 @@ class K{base}:
         return self.x
 OPS = [("new", (1,), {{}}), ("call", "make", 5), ("call", "get")]
 ''',
+    "new-returns-object-of-another-type": '''
+{deco}
+class K{base}:
+    def __new__(cls, x):
+        if x < 0:
+            return 42
+        return super().__new__(cls)
+    def get(self):
+        return 7
+OPS = [("new", (-1,), {{}}), ("new", (1,), {{}}), ("call", "get")]
+''',
+    "singleton-new": '''
+{deco}
+class K{base}:
+    _instance = None
+    def __new__(cls):
+        if cls._instance is None:
+            cls._instance = super().__new__(cls)
+            cls._instance.n = 0
+        return cls._instance
+    def bump(self):
+        self.n += 1
+        return self.n
+OPS = [("new", (), {{}}), ("call", "bump"), ("new", (), {{}}), ("call", "bump"), ("getattr", "n")]
+''',
+    "subclass-inherits-static-class-property-members": '''
+{deco}
+class Base{base}:
+    def __init__(self, x):
+        self.x = x
+    @staticmethod
+    def st(a, factor=2):
+        """Doc of st."""
+        return a * factor
+    @classmethod
+    def cm(cls, a):
+        return (cls.__name__, a)
+    def _get_z(self):
+        return self.x
+    z = property(_get_z, doc="Explicit doc of z.")
+    def get(self, d=0):
+        return self.x + d
+{deco2}
+class Middle(Base):
+    def extra(self):
+        return self.x
+class K(Middle):
+    pass
+OPS = [("kcall", "st", 3), ("kcall", "cm", 4), ("rawtype", "st"), ("rawtype", "cm"), ("new", (1,), {{}}), ("call", "st", 7), ("call", "st", 7, 5),
+       ("call", "cm", 8), ("getattr", "z"), ("call", "get", 1), ("call", "extra"), ("kcall", "st", 9), ("isinstance",)]
+''',
     "context-manager-and-iter": '''
 {deco}
 class K{base}:
@@ -599,13 +654,17 @@ def run_ops(mod, ops) -> List[Any]:
             elif op[0] == "subscript_new":
                 inst = K[int](*op[1])
                 res = ("instance", type(inst).__name__)
-            elif inst is None and op[0] not in ("call",):
+            elif inst is None and op[0] not in ("call", "kcall", "rawtype", "newof", "abstracts", "modattr"):
                 res = "skipped"
             elif op[0] == "call":
                 target = inst if inst is not None else K
                 res = getattr(target, op[1])(*op[2:])
                 if isinstance(res, K):
                     res = ("K-instance", sorted(getattr(res, "__dict__", {}).items(), key=str))
+            elif op[0] == "kcall":
+                res = getattr(K, op[1])(*op[2:])
+            elif op[0] == "rawtype":
+                res = type(inspect.getattr_static(K, op[1])).__name__
             elif op[0] == "unbound":
                 res = getattr(K, op[1])(inst)
             elif op[0] == "unbound_kw":
@@ -637,7 +696,7 @@ def run_ops(mod, ops) -> List[Any]:
             elif op[0] == "bool":
                 res = bool(inst)
             else:
-                raise ValueError(op)
+                res = run_ops_extra(mod, op, inst)
             log.append(("ok", repr(res)))
         except Exception as err:  # pylint: disable=broad-except
             # the exception class is behaviour; the wording of the message is not compared
@@ -653,6 +712,7 @@ INV_DECOS = {
 }
 
 CLASS_KEYS = {
+    "new-returns-object-of-another-type": "C14/new-returning-foreign-object-breaks-instantiation",
     "no-init-subclass-with-init-args": "C14/new-wrapper-inherited-by-subclass-with-init",
     "no-init-subclass-with-kwonly-init": "C14/new-wrapper-inherited-by-subclass-with-init",
     "first-param-not-self": "C14/self-found-by-name-only",
@@ -669,8 +729,11 @@ def run_classes(w) -> None:
                     continue
                 if tag in ("generic",) and False:
                     continue
-                dec_src = PRELUDE + template.format(deco="@capture('K')\n" + "" if False else ideco + "\n@capture('K')", base=base, comma_base=comma_base)
-                bare_src = PRELUDE + template.format(deco="", base=base, comma_base=comma_base)
+                # a subclass in the middle of the hierarchy carries an invariant of its own (decorator on a plain class; under DBC the
+                # meta-class has already given it the inherited ones)
+                deco2 = ideco.replace("'inv'", "'invM'").replace("'inv2'", "'invM2'")
+                dec_src = PRELUDE + template.format(deco=ideco + "\n@capture('K')", deco2=deco2, base=base, comma_base=comma_base)
+                bare_src = PRELUDE + template.format(deco="", deco2="", base=base, comma_base=comma_base)
                 w.count("class_programs")
                 w.case(("class", tag, dbc, iname))
                 case = {"class_program": tag, "dbc": dbc, "invariant": iname}
@@ -717,6 +780,8 @@ def run_classes(w) -> None:
                                 and tag.startswith("no-init-subclass"):
                             # mechanism: inherited __new__ wrapper hands the constructor arguments to object.__new__
                             key = CLASS_KEYS[tag]
+                        elif tag == "new-returns-object-of-another-type" and op[0] == "new" and got[i] == ("raise", "AttributeError"):
+                            key = CLASS_KEYS[tag]
                         elif tag == "first-param-not-self" and got[i] == ("raise", "KeyError"):
                             key = CLASS_KEYS[tag]
                         w.violation(key,
@@ -726,6 +791,261 @@ def run_classes(w) -> None:
                 finally:
                     bare.unload()
                     dec.unload()
+
+
+# ---------------------------------------------------------------------------------------------------------------------
+# (C) contract-inheriting hierarchies: the same source with and without the library
+# ---------------------------------------------------------------------------------------------------------------------
+
+HIER_PRELUDE_DEC = PRELUDE + '''
+DBCBASE = icontract.DBC
+
+def REQ(func):
+    return icontract.require(lambda: HUB.cond("r", None))(func)
+
+def ENS(func):
+    return icontract.ensure(lambda result: HUB.cond("e", result))(func)
+
+def INV(cls):
+    return icontract.invariant(lambda self: HUB.inv("i", self))(cls)
+'''
+
+HIER_PRELUDE_BARE = PRELUDE + '''
+DBCBASE = abc.ABC
+
+def REQ(func):
+    return func
+
+ENS = REQ
+INV = REQ
+'''
+
+HIER_PROGRAMS = {
+    "overrides-of-every-member-kind": '''
+class Base(DBCBASE):
+    def __init__(self):
+        self.v = 1
+    @REQ
+    def _get(self):
+        return self.v
+    x = property(_get, doc="doc of Base.x")
+    @property
+    @ENS
+    def y(self):
+        """Doc of Base.y getter."""
+        return self.v
+    @y.setter
+    @REQ
+    def y(self, value):
+        self.v = value
+    @REQ
+    @ENS
+    def m(self, a: int = 1) -> int:
+        """Doc of Base.m."""
+        return a
+    @classmethod
+    @REQ
+    def cm(cls, a):
+        return (cls.__name__, a)
+    @staticmethod
+    @REQ
+    def st(a):
+        return a
+class K(Base):
+    def _get2(self):
+        return self.v + 1
+    x = property(_get2, doc="explicit doc of K.x")
+    @property
+    def y(self):
+        """Doc of K.y getter."""
+        return self.v + 2
+    @y.setter
+    def y(self, value):
+        self.v = value * 2
+    def m(self, a: int = 1) -> int:
+        """Doc of K.m."""
+        return a + 1
+    @classmethod
+    def cm(cls, a):
+        return super().cm(a + 1)
+    @staticmethod
+    def st(a):
+        return a * 2
+OPS = [("kcall", "cm", 2), ("kcall", "st", 3), ("rawtype", "st"), ("rawtype", "cm"), ("new", (), {}), ("getattr", "x"), ("getattr", "y"),
+       ("setattr", "y", 5), ("getattr", "y"), ("call", "m", 3), ("call", "cm", 2), ("call", "st", 3), ("isinstance",)]
+''',
+    "inherits-without-overriding": '''
+@INV
+class Base(DBCBASE):
+    def __init__(self, v=1):
+        self.v = v
+    @property
+    @ENS
+    def y(self):
+        """Doc of Base.y getter."""
+        return self.v
+    @REQ
+    def m(self, a=1):
+        return a
+    @classmethod
+    @REQ
+    def cm(cls, a):
+        return (cls.__name__, a)
+    @staticmethod
+    @REQ
+    def st(a):
+        return a
+class Middle(Base):
+    def other(self):
+        return "other"
+@INV
+class K(Middle):
+    pass
+OPS = [("kcall", "cm", 2), ("kcall", "st", 3), ("rawtype", "st"), ("rawtype", "cm"), ("new", (), {}), ("getattr", "y"), ("call", "m", 3),
+       ("call", "cm", 2), ("call", "st", 3), ("call", "other"), ("new", (4,), {}), ("getattr", "y")]
+''',
+    "abstract-base": '''
+class Base(DBCBASE):
+    @abc.abstractmethod
+    @REQ
+    def area(self) -> float:
+        """Doc of area."""
+    @property
+    @abc.abstractmethod
+    def name(self):
+        """Doc of name."""
+    @REQ
+    def describe(self):
+        return (self.name, self.area())
+class K(Base):
+    def area(self) -> float:
+        return 2.0
+    @property
+    def name(self):
+        return "k"
+class Partial(Base):
+    def area(self) -> float:
+        return 1.0
+OPS = [("newof", "Base"), ("newof", "Partial"), ("new", (), {}), ("call", "area"), ("getattr", "name"), ("call", "describe"), ("abstracts", "Base"),
+       ("abstracts", "Partial"), ("abstracts", "K")]
+''',
+    "class-keywords-and-init-subclass": '''
+class Base(DBCBASE):
+    registry = []
+    def __init_subclass__(cls, flag=False, **kwargs):
+        super().__init_subclass__(**kwargs)
+        Base.registry.append((cls.__name__, flag))
+    @REQ
+    def m(self):
+        return 1
+class K(Base, flag=True):
+    def m(self):
+        return 2
+class Other(Base):
+    pass
+OPS = [("new", (), {}), ("call", "m"), ("modattr", "Base", "registry")]
+''',
+    "mixin-and-multiple-inheritance": '''
+class Mixin:
+    def helper(self):
+        return "helper"
+    def m(self, a=0):
+        return ("mixin", a)
+@INV
+class Base(DBCBASE):
+    def __init__(self):
+        self.v = 1
+    @REQ
+    def m(self, a=0):
+        return ("base", a)
+class Left(Base):
+    def m(self, a=0):
+        return ("left", super().m(a))
+class Right(Base):
+    def m(self, a=0):
+        return ("right", super().m(a))
+class K(Left, Right, Mixin):
+    def m(self, a=0):
+        return ("k", super().m(a))
+OPS = [("new", (), {}), ("call", "m", 1), ("call", "helper"), ("mro",)]
+''',
+    "slots-generic-dataclass-on-dbc": '''
+T = typing.TypeVar("T")
+@INV
+class Base(DBCBASE, typing.Generic[T]):
+    __slots__ = ("v",)
+    def __init__(self, v):
+        self.v = v
+    @REQ
+    def get(self):
+        return self.v
+@dataclasses.dataclass
+class K(Base[int]):
+    w: int = 3
+    def __post_init__(self):
+        Base.__init__(self, self.w * 2)
+    def get(self):
+        return (super().get(), self.w)
+OPS = [("new", (), {}), ("call", "get"), ("new", (5,), {}), ("call", "get"), ("eqself",), ("repr",)]
+''',
+}
+
+
+def run_ops_extra(mod, op, inst):
+    if op[0] == "newof":
+        return ("instance", type(getattr(mod, op[1])()).__name__)
+    if op[0] == "abstracts":
+        return sorted(getattr(getattr(mod, op[1]), "__abstractmethods__", ()))
+    if op[0] == "modattr":
+        return getattr(getattr(mod, op[1]), op[2])
+    if op[0] == "mro":
+        return [k.__name__ for k in type(inst).__mro__ if k.__module__ == mod.__name__]
+    raise ValueError(op)
+
+
+def run_hierarchies(w) -> None:
+    for tag, template in HIER_PROGRAMS.items():
+        w.count("class_programs")
+        w.count("hierarchy_programs")
+        w.case(("hierarchy", tag))
+        case = {"hierarchy_program": tag}
+        try:
+            bare = prog.load_source(HIER_PRELUDE_BARE + template, w.scratch())
+        except BaseException as err:  # pylint: disable=broad-except
+            w.mark_inconclusive("bare twin of hierarchy {} failed to load: {!r}".format(tag, err))
+            continue
+        try:
+            dec = prog.load_source(HIER_PRELUDE_DEC + template, w.scratch())
+        except BaseException as err:  # pylint: disable=broad-except
+            w.violation("C14/class-definition-fails/" + tag, "defining the hierarchy {} with (satisfied) contracts raised {}: {}".format(
+                tag, type(err).__name__, str(err)[:200]), case)
+            bare.unload()
+            continue
+        try:
+            md_want, md_got = class_metadata(bare.module.K), class_metadata(dec.module.K)
+            w.count("metadata_comparisons", len(md_want))
+            # the DBC base itself is part of the MRO of the decorated twin only
+            md_got = {k: v for k, v in md_got.items() if k in md_want}
+            md_want["<class>"] = md_want["<class>"][:3] + ([n for n in md_want["<class>"][3] if n not in ("ABC", "DBC")],)
+            md_got["<class>"] = md_got["<class>"][:3] + ([n for n in md_got["<class>"][3] if n not in ("ABC", "DBC")],)
+            if md_want != md_got:
+                diff = sorted(k for k in set(md_want) | set(md_got) if md_want.get(k) != md_got.get(k))
+                member = diff[0].split(".")[-1]
+                key = "C14/class-member-metadata-differs/" + member
+                if md_want[diff[0]][0] == "property" and md_got.get(diff[0], ("",))[0] == "property" and md_want[diff[0]][1] != md_got[diff[0]][1]:
+                    key = "C14/property-doc-lost-under-inheriting-metaclass"
+                w.violation(key, "{}: members differ: {}".format(tag, [(k, md_got.get(k), md_want.get(k)) for k in diff[:3]]), case)
+            want = run_ops(bare.module, bare.module.OPS)
+            got = run_ops(dec.module, dec.module.OPS)
+            w.count("class_operations", len(want))
+            w.count("contract_evaluations_in_hierarchies", sum(1 for e in dec.hub.events if e.kind in ("cond", "inv")))
+            if want != got:
+                i = next(k for k in range(len(want)) if want[k] != got[k])
+                w.violation("C14/class-behaviour-differs/" + tag, "{}: operation {} gives {} with contracts but {} without".format(
+                    tag, bare.module.OPS[i], got[i], want[i]), case, {"with": got, "without": want})
+        finally:
+            bare.unload()
+            dec.unload()
 
 
 def run(w) -> None:
@@ -755,10 +1075,16 @@ def run(w) -> None:
         run_callables(w, batch)
     if w.shard == 0:
         run_classes(w)
+    if w.shard == 1 % w.nshards:
+        run_hierarchies(w)
     w.exhaustive = False
 
 
 def replay(case, w) -> None:
+    if "hierarchy_program" in case:
+        run_hierarchies(w)
+        w.violations = [v for v in w.violations if v["case"].get("hierarchy_program") == case["hierarchy_program"]]
+        return
     if "class_program" in case:
         run_classes(w)
         w.violations = [v for v in w.violations if v["case"].get("class_program") == case["class_program"]]
